@@ -21,38 +21,58 @@ import (
 
 const c18pk = core.PubKey("0x8a1d7b8dd64e0aafe7ea7b6c95065c9364cf99d38470db679bdf5c9bd8b0e6cd5c7a3b0a6d4c2e3c7a5e1e9e2b1a7c3d")
 
-// c18blocked starts a reader before the value is stored and returns a func that waits for its result.
+// c18nBlocked is the number of readers that are already waiting when the value is stored (all for the same key: they
+// are resolved by one and the same Store).
+const c18nBlocked = 3
+
+// c18blocked starts c18nBlocked readers before the value is stored and returns a func that waits for their results
+// and registers them with the world.
 func c18blocked[T any](w *alias.World, db *MemDB, pending func() int, query func(ctx context.Context) (T, error)) func() (T, bool) {
 	type res struct {
 		v   T
 		err error
 	}
-	ch := make(chan res, 1)
+	var chans []chan res
 	ctx, cancel := context.WithTimeout(context.Background(), 20*time.Second)
-	go func() {
-		v, err := query(ctx)
-		ch <- res{v, err}
-	}()
-	for i := 0; ; i++ { // wait until the query is registered
-		db.mu.Lock()
-		n := pending()
-		db.mu.Unlock()
-		if n > 0 {
-			break
+	for k := 0; k < c18nBlocked; k++ {
+		ch := make(chan res, 1)
+		chans = append(chans, ch)
+		go func() {
+			v, err := query(ctx)
+			ch <- res{v, err}
+		}()
+		for i := 0; ; i++ { // wait until the query is registered
+			db.mu.Lock()
+			n := pending()
+			db.mu.Unlock()
+			if n > k {
+				break
+			}
+			if i > 200000 {
+				w.Fail("blocked reader did not register")
+				break
+			}
+			time.Sleep(50 * time.Microsecond)
 		}
-		if i > 200000 {
-			w.Fail("blocked reader did not register")
-			break
-		}
-		time.Sleep(50 * time.Microsecond)
 	}
 	return func() (T, bool) {
 		defer cancel()
-		x := <-ch
-		if x.err != nil {
-			w.Fail("blocked reader: %v", x.err)
+		var first T
+		ok := true
+		for k, ch := range chans {
+			x := <-ch
+			if x.err != nil {
+				w.Fail("blocked reader: %v", x.err)
+				ok = false
+				continue
+			}
+			if k == 0 {
+				first = x.v
+			} else {
+				w.Result("blocked-reader"+string(rune('1'+k)), x.v)
+			}
 		}
-		return x.v, x.err == nil
+		return first, ok
 	}
 }
 
